@@ -7,6 +7,7 @@ import (
 	"bytes"
 	"encoding/hex"
 	"fmt"
+	"os"
 	"sort"
 	"strings"
 	"sync"
@@ -17,17 +18,22 @@ import (
 	"github.com/33cn/chain33/common"
 	"github.com/33cn/chain33/common/address"
 	"github.com/33cn/chain33/common/crypto"
+	cryptocli "github.com/33cn/chain33/common/crypto/client"
 	dbm "github.com/33cn/chain33/common/db"
 	"github.com/33cn/chain33/common/log"
 	"github.com/33cn/chain33/common/merkle"
+	"github.com/33cn/chain33/consensus"
 	"github.com/33cn/chain33/executor"
+	"github.com/33cn/chain33/mempool"
+	"github.com/33cn/chain33/queue"
+	"github.com/33cn/chain33/store"
 	_ "github.com/33cn/chain33/system" // register drivers, consensus, store, crypto
-	cty "github.com/33cn/chain33/system/dapp/coins/types"
 	drivers "github.com/33cn/chain33/system/dapp"
+	cty "github.com/33cn/chain33/system/dapp/coins/types"
 	mty "github.com/33cn/chain33/system/dapp/manage/types"
 	"github.com/33cn/chain33/types"
 	"github.com/33cn/chain33/util"
-	"github.com/33cn/chain33/util/testnode"
+	"github.com/33cn/chain33/wallet"
 )
 
 // fixtureErr marks a problem of the harness fixture (never a verdict about the code under test).
@@ -39,8 +45,9 @@ func fixturef(format string, a ...interface{}) { panic(fixtureErr{fmt.Sprintf(fo
 // fee by default; addrfeeindex, mvcc, stat by the [exec] switches); what varies is whether fees are charged
 // (free chains allow blocks that change no state) and whether the short tx key ("quickIndex") is written.
 type variant struct {
-	Free  bool `json:"free"`
-	Quick bool `json:"quickIndex"`
+	Free    bool `json:"free"`
+	Quick   bool `json:"quickIndex"`
+	LevelDB bool `json:"leveldb"` // production backend (slow to open on a loaded machine); otherwise chain33's memdb backend
 }
 
 func cfgString(v variant, mvccInNode bool) string {
@@ -54,6 +61,12 @@ func cfgString(v variant, mvccInNode bool) string {
 	rep("[exec]\nenableStat=false\nenableMVCC=false", fmt.Sprintf("[exec]\nenableStat=true\nenableMVCC=%v\nenableAddrFeeIndex=true", mvccInNode))
 	if !v.Quick {
 		rep("enableTxQuickIndex=true", "enableTxQuickIndex=false")
+	}
+	if !v.LevelDB {
+		if strings.Count(s, "driver=\"leveldb\"") != 4 { // blockchain, p2p, store, wallet
+			fixturef("default config: unexpected number of leveldb drivers")
+		}
+		s = strings.ReplaceAll(s, "driver=\"leveldb\"", "driver=\"memdb\"")
 	}
 	return s
 }
@@ -92,40 +105,107 @@ var poolAddrs = func() []string {
 // execNames are the executors coins are moved into / out of, and whose addresses appear as "to".
 var execNames = []string{"manage", "none", "coins"}
 
+// node is an in-process chain33 node assembled exactly like util/testnode assembles one (same modules, same
+// order, same mock p2p) minus what this check never uses and what makes testnode's start-up take 0.3–4 s on a loaded
+// machine: the wait for the mempool's one-second sync polls, the wallet seed / key import, and the RPC server.
+// Mining is off: the only blocks are the genesis block (written by the solo consensus at start) and the ones
+// the case delivers.
 type node struct {
-	*testnode.Chain33Mock
-	cfg   *types.Chain33Config
-	api   client.QueueProtocolAPI
-	chain *blockchain.BlockChain
-	db    dbm.DB
-	nonce int64
+	cfg     *types.Chain33Config
+	q       queue.Queue
+	cli     queue.Client
+	api     client.QueueProtocolAPI
+	chain   *blockchain.BlockChain
+	db      dbm.DB
+	mods    []interface{ Close() }
+	datadir string
+	nonce   int64
 	// mvccInNode: the mvcc plugin runs inside the node's executor; otherwise the harness applies it (see mvccThroughExecutor)
 	mvccInNode bool
 }
+
+func (n *node) GetClient() queue.Client { return n.cli }
+
+type mockP2P struct{}
+
+func (m *mockP2P) SetQueueClient(c queue.Client) {
+	go func() {
+		c.Sub("p2p")
+		for msg := range c.Recv() {
+			switch msg.Ty {
+			case types.EventPeerInfo:
+				msg.Reply(c.NewMessage("p2p", types.EventPeerList, &types.PeerList{}))
+			case types.EventGetNetInfo:
+				msg.Reply(c.NewMessage("p2p", types.EventPeerList, &types.NodeNetInfo{}))
+			case types.EventTxBroadcast, types.EventBlockBroadcast, types.EventAddBlock:
+				c.FreeMessage(msg)
+			default:
+				msg.ReplyErr("p2p->Do not support "+types.GetEventName(int(msg.Ty)), types.ErrNotSupport)
+			}
+		}
+	}()
+}
+func (m *mockP2P) Wait()  {}
+func (m *mockP2P) Close() {}
 
 func newNode(v variant, mvccInNode bool) *node {
 	log.SetLogLevel("crit")
 	cfg := types.NewChain33Config(cfgString(v, mvccInNode))
 	mcfg := cfg.GetModuleConfig()
-	mcfg.Consensus.Minerstart = false // the only blocks are the ones the case delivers
+	mcfg.Consensus.Minerstart = false
 	if v.Free {
 		mcfg.Mempool.MinTxFeeRate = 0
 		mcfg.Wallet.MinFee = 0
 		cfg.SetMinFee(0)
 	}
-	m := testnode.NewWithConfig(cfg, nil)
-	log.SetLogLevel("crit")
-	if m == nil {
-		fixturef("testnode did not start")
+	q := queue.New("channel")
+	q.SetConfig(cfg)
+	n := &node{q: q, mvccInNode: mvccInNode, datadir: util.ResetDatadir(mcfg, "$TEMP/")}
+	address.Init(mcfg.Address)
+	t0 := time.Now()
+	start := func(m queue.Module) {
+		m.SetQueueClient(q.Client())
+		n.mods = append(n.mods, m)
+		if os.Getenv("C14_TIMING") != "" {
+			fmt.Printf("  start %T %v\n", m, time.Since(t0))
+		}
 	}
-	for i := 0; m.GetBlockChain().GetBlockHeight() < 0; i++ { // genesis is written by the consensus module at start
+	start(cryptocli.New())
+	start(executor.New(cfg))
+	start(store.New(cfg))
+	n.chain = blockchain.New(cfg)
+	start(n.chain)
+	start(consensus.New(cfg))
+	start(mempool.New(cfg))
+	start(wallet.New(cfg))
+	start(&mockP2P{})
+	n.cli = q.Client()
+	api, err := client.New(q.Client(), nil)
+	if err != nil {
+		fixturef("client.New: %v", err)
+	}
+	n.api, n.cfg, n.db = api, n.cli.GetConfig(), n.chain.GetDB()
+	for i := 0; n.chain.GetBlockHeight() < 0; i++ { // genesis is written by the consensus module at start
 		if i > 30000 {
-			m.Close()
+			n.Close()
 			fixturef("no genesis block after 60 s")
 		}
 		time.Sleep(2 * time.Millisecond)
 	}
-	return &node{Chain33Mock: m, cfg: m.GetClient().GetConfig(), api: m.GetAPI(), chain: m.GetBlockChain(), db: m.GetBlockChain().GetDB(), mvccInNode: mvccInNode}
+	if os.Getenv("C14_TIMING") != "" {
+		fmt.Printf("  genesis %v\n", time.Since(t0))
+	}
+	return n
+}
+
+// Close stops the modules in testnode's order and removes the data directory.
+func (n *node) Close() {
+	order := []int{0, 7, 5, 1, 4, 6, 3, 2} // crypto, p2p, mempool, exec, consensus, wallet, blockchain, store
+	for _, i := range order {
+		n.mods[i].Close()
+	}
+	n.cli.Close()
+	os.RemoveAll(n.datadir)
 }
 
 // mvccThroughExecutor reports whether a node configured with exec.enableMVCC=true can execute a block above
@@ -436,9 +516,11 @@ func render(m types.Message, err error) obs {
 }
 
 // snap evaluates every query of the property's list over the universe:
-//   tx lookup by hash; per-address tx lists (all / from / to, both directions) and counts; coins AddrReciver;
-//   per-address fee list; manage proposal lists; total fee per block hash; the plugin flags;
-//   MVCC GetVersion / GetVersionHash / GetMaxVersion / GetV(key, version).
+//
+//	tx lookup by hash; per-address tx lists (all / from / to, both directions) and counts; coins AddrReciver;
+//	per-address fee list; manage proposal lists; total fee per block hash; the plugin flags;
+//	MVCC GetVersion / GetVersionHash / GetMaxVersion / GetV(key, version).
+//
 // The per-address executor queries are evaluated by the executors' own Query functions (the code
 // Executor.procExecQuery dispatches to) on a driver whose local db is the blockchain db: the node's message path
 // costs ~10 ms per executor query on this tree, so it is used only for the addresses the block under test touches
